@@ -252,7 +252,7 @@ class Spec(EvalableModel):
             if not isinstance(leaf, Component):
                 continue
 
-            global_fanout = 1
+            global_fanout = leaf.get_fanout()
             for p in parents:
                 if isinstance(p, Spatialable):
                     global_fanout *= p.get_fanout()
